@@ -25,7 +25,7 @@ if os.path.exists(os.path.join(vlib.LEAN_DIR, "Yarel", "Props", "C05Tables.lean"
     REQUIRED_THEOREMS += ["rules_order", "infix_defined", "binary_prec_succ_ok"]
 if os.path.exists(os.path.join(vlib.LEAN_DIR, "Yarel", "Props", "SpecTables.lean")):
     THEOREM_MODULES.append("Yarel.Props.SpecTables")
-    REQUIRED_THEOREMS += ["spec_rules_are_the_sources", "spec_token_kinds_are_the_sources", "spec_precedences_are_the_sources", "spec_limits_are_the_sources"]
+    REQUIRED_THEOREMS += ["spec_rules_are_the_sources", "spec_token_kinds_are_the_sources", "spec_precedences_are_the_sources", "spec_limits_are_the_sources", "spec_natives_are_the_sources"]
 USES_GEN = True
 LEVEL = "proof"
 ASSUMPTIONS = [
